@@ -824,6 +824,16 @@ class Gen:
         a = {"target": u["id"], "values": vals, "order": order, "form": r.choice(["tuple", "tuple", "list", "mixed", "iterator", "generator", "lazy"])}
         if r.random() < 0.25:
             a["share"] = True
+            # make it matter: two parameters of one (list / tuple) type get the SAME value, hence the same object
+            bytype = {}
+            for n, t in u["params"]:
+                bytype.setdefault(t, []).append(n)
+            same = [ns for t, ns in sorted(bytype.items()) if len(ns) >= 2 and isinstance(vals.get(ns[0]), list)]
+            if same and not fault and r.random() < 0.6:
+                ns = r.choice(same)
+                vals = dict(vals)
+                vals[ns[1]] = vals[ns[0]]
+                a["values"] = vals
         if fault:
             a["fault"] = fault
         self.add("bind", a, [u["id"]])
